@@ -72,7 +72,7 @@ def run(tier, seed, replay=None):
                                "source": c["src"], "presented_ids": c["seq"], "walk_error": c.get("err"),
                                "nodes_in_tree": c["nodes"], "model": line,
                                "failing_callback_run": {"fail_at": c["fail_at"], "presented": c["presented"],
-                                                        "error_is_callbacks": c["err_is_ours"]}})
+                                                        "error_is_callbacks": c["err_is_ours"], "callback_error": c.get("fail_err")}})
         if meta.get("unregistered_node_types"):
             raise CheckError("node types in %s/ast missing from harness/astreg.go: %s" % (common.REPO, meta["unregistered_node_types"]))
         if bad:
